@@ -128,9 +128,10 @@ def run_cases(cases, want_parse=True):
             for n in names:
                 rid = d.rids[id(objs[n])]
                 for i in range(len(s) + 1):
-                    t1 = time.time()
-                    r_impl = pyimpl.run_lparse(objs[n], s, i)
-                    if time.time() - t1 > 0.5:
+                    try:
+                        with pyimpl.time_limit(0.5):
+                            r_impl = pyimpl.run_lparse(objs[n], s, i)
+                    except pyimpl.SlowCase:
                         slow = True   # exponential backtracking: a runtime effect, not semantics; skip
                         break
                     lines.append(" ".join(["LPARSE", "0", str(rid), str(i)] + st))
@@ -138,16 +139,45 @@ def run_cases(cases, want_parse=True):
                 if slow:
                     break
                 if want_parse:
-                    for i in sorted({0, len(s) // 2, len(s)}):
-                        lines.append(" ".join(["PARSE", "0", str(rid), str(i)] + st))
-                        meta.append((c, "parse", n, s, i, pyimpl.run_parse(objs[n], s, i)))
-                    lines.append(" ".join(["PALL", "0", str(rid)] + st))
-                    meta.append((c, "parse_all", n, s, 0, pyimpl.run_parse_all(objs[n], s)))
-    inp = "\n".join(x for x in lines if x is not None) + "\n"
-    p = subprocess.run([DRIVER], input=inp, capture_output=True, text=True, check=False)
-    if p.returncode != 0:
-        raise RuntimeError("model driver failed: " + p.stderr[-2000:])
-    outs = p.stdout.split("\n")
+                    try:
+                        with pyimpl.time_limit(2.0):
+                            rows = [(" ".join(["PARSE", "0", str(rid), str(i)] + st), (c, "parse", n, s, i, pyimpl.run_parse(objs[n], s, i)))
+                                    for i in sorted({0, len(s) // 2, len(s)})]
+                            rows.append((" ".join(["PALL", "0", str(rid)] + st), (c, "parse_all", n, s, 0, pyimpl.run_parse_all(objs[n], s))))
+                    except pyimpl.SlowCase:
+                        slow = True
+                        break
+                    for ln, mt in rows:
+                        lines.append(ln)
+                        meta.append(mt)
+    def drive(ls, timeout):
+        p = subprocess.run([DRIVER], input="\n".join(ls) + "\n", capture_output=True, text=True, check=False, timeout=timeout)
+        if p.returncode != 0:
+            raise RuntimeError("model driver failed: " + p.stderr[-2000:])
+        return p.stdout.split("\n")
+
+    real = [x for x in lines if x is not None]
+    try:
+        outs = drive(real, 240)
+    except subprocess.TimeoutExpired:
+        # some case is far slower in the model than in the library: run grammar by grammar and skip the slow ones
+        # (running time is a runtime effect, not semantics)
+        outs = []
+        chunk = []
+        chunks = []
+        for ln in real:
+            if ln.startswith("GRAMMAR") and chunk:
+                chunks.append(chunk)
+                chunk = []
+            chunk.append(ln)
+        if chunk:
+            chunks.append(chunk)
+        for ch in chunks:
+            try:
+                outs += [x for x in drive(ch, 30)][: len(ch) - 1]
+            except subprocess.TimeoutExpired:
+                outs += ["OOF"] * (len(ch) - 1)
+                stats["slow_model_cases"] = stats.get("slow_model_cases", 0) + 1
     records = []
     oi = 0
     for ln, m in zip(lines, meta):
